@@ -125,7 +125,7 @@ func (fv *FnV) lockOp(st *State, m string, lock bool, pos token.Pos, what string
 		fv.emit(st, "L", "lock-not-held:"+fv.siteText(pos, "call"), fv.lockProps(), eq(cur, "0"), "the mutex is not already held by this activation (self-deadlock)", pos)
 		fv.heapSet(st, "G|held", sto(h, m, "1"))
 	} else {
-		fv.emit(st, "L", "unlock-held:"+fv.siteText(pos, "call"), fv.lockProps(), "(> "+cur+" 0)", "unlock of a held mutex", pos)
+		fv.emit(st, "L", "unlock-held:"+fv.siteText(pos, "call"), fv.lockProps(), not(eq(cur, "0")), "unlock of a held mutex", pos)
 		fv.heapSet(st, "G|held", sto(h, m, "0"))
 	}
 }
@@ -156,7 +156,7 @@ func (fv *FnV) guardedAccess(st *State, v ssa.Value, pos token.Pos, mode string)
 		return
 	}
 	m := fv.val(mglob).v.T
-	held := "(> " + sel(fv.heapGet(st, "G|held"), m) + " 0)"
+	held := not(eq(sel(fv.heapGet(st, "G|held"), m), "0"))
 	fv.emit(st, "L", "guarded:"+gd.Name+":"+fv.siteText(pos, "index"), fv.lockProps(), held, mode+" of "+gd.Name+" happens with "+gd.Mutex+" held", pos)
 }
 
